@@ -157,6 +157,9 @@ Proof. exact conn_buf_tie. Qed.
 Theorem c04_translation_complete : src_problems_conn_buf = 0%nat.
 Proof. exact conn_buf_translated. Qed.
 
+Theorem c04_panic_answer_is_the_source :
+  src_panic_status = Model.ConnInst.panic_code /\ src_panic_text = Model.ConnInst.panic_text /\ src_problems_spawn = 0%nat.
+Proof. exact panic_answer_tie. Qed.
 Theorem c04_server_translation_complete : src_problems_conn_loop = 0%nat.
 Proof. exact conn_loop_translated. Qed.
 
@@ -179,3 +182,4 @@ Print Assumptions c04_translation_complete.
 Print Assumptions c04_handle_once_is_the_source.
 Print Assumptions c04_conn_loop_is_the_source.
 Print Assumptions c04_server_translation_complete.
+Print Assumptions c04_panic_answer_is_the_source.
